@@ -66,6 +66,14 @@ def complement (lo limit : Nat) (missing : List Nat) (C : Den) (w : Rat) : Den :
 /-- Ids shifted by a segment offset (MultiMatcher). -/
 def shift (off : Nat) (A : Den) : Den := A.map fun p => (p.1 + off, p.2)
 
+/-- Union of several lists; the scores of an id present in several are added (Or over many clauses). -/
+def sumDens : List Den → Den
+  | [] => []
+  | D :: Ds => unionWith (· + ·) D (sumDens Ds)
+
+/-- Entries whose id is below `n` (`doccount`: ids at or beyond it are not documents of the reader). -/
+def below (n : Nat) (L : Den) : Den := L.filter fun p => decide (p.1 < n)
+
 /-- All scores are non-negative. -/
 def NonNegDen (L : Den) : Prop := ∀ p ∈ L, 0 ≤ p.2
 
@@ -100,5 +108,21 @@ def Cmd.spec : Cmd → Den × Den → Option (Den × Den)
 def runSpec : List Cmd → Den × Den → Option (Den × Den)
   | [], st => some st
   | c :: cs, st => (c.spec st).bind (runSpec cs)
+
+/-- … and with `replace()` (no threshold) in place of `reset` (a replacement may have shed exhausted sub-matchers,
+    so `reset()` after `replace()` is undefined): the meaning on the remaining list alone -/
+inductive CmdR where
+  | next | skipTo (t : Nat) | replace0
+
+def CmdR.spec : CmdR → Den → Option Den
+  | .next, _ :: L => some L
+  | .next, [] => none
+  | .skipTo t, p :: L => some (dropBelow t (p :: L))
+  | .skipTo _, [] => none
+  | .replace0, L => some L
+
+def runSpecR : List CmdR → Den → Option Den
+  | [], L => some L
+  | c :: cs, L => (c.spec L).bind (runSpecR cs)
 
 end WM.Matcher
